@@ -171,6 +171,7 @@ def manifest_filter(ctx, R, tool):
     ID (a stripped line), LINES / IDS (collections of those).  An id may be excluded only by hash /
     equality membership against IDs: `in` on TEXT is a substring test, and raw LINEs never equal an id."""
     env = {}
+    dropped = []
     # str.strip / rstrip / lstrip with an argument remove any of the argument's *characters*, not a prefix or suffix: an id
     # that happens to end in one of them is truncated and no longer matches the work map
     for c_ in astq.func_calls(tool):
@@ -236,6 +237,10 @@ def manifest_filter(ctx, R, tool):
             k = kind(e.value, loc)
             if k == "LINE" and astq.text(e.slice) == ":-1":
                 return "ID"
+            if k in ("IDS", "LINES") and isinstance(e.slice, ast.Slice) and not (e.slice.lower is None and e.slice.upper is None):
+                # part of the manifest only: the utterances listed in the dropped entries are computed and written again
+                dropped.append(e)
+                return k
             return None if k is None else "UNKNOWN"
         if isinstance(e, ast.BinOp):
             ks = {kind(e.left, loc), kind(e.right, loc)} - {None}
@@ -358,6 +363,9 @@ def manifest_filter(ctx, R, tool):
                 seq(h.body)
 
     seq(tool.node.body)
+    for e in dropped[:1]:
+        ctx.bad(R, tool, e, "only part of the manifest is honoured (%s): the utterances listed in the entries that are sliced off are computed and written again "
+                "on every resume" % astq.text(e)[:60], "ids listed in the manifest are excluded unconditionally", robust=True)
     if sites == 0:
         raise AnalysisError("%s: no site found where manifest ids are matched against the work map" % R)
     ctx.floor(R, sites, 1)
